@@ -17,6 +17,7 @@ It also records what the integrator registration hook received, and evaluates th
 hand, the way tests/test_for_integrators.py does, against the verdict of the real call.
 """
 import contextvars
+import inspect
 import re
 
 import icontract
@@ -125,7 +126,13 @@ class Machine:
 
     def _call(self, td):
         self.probe_calls += 1
-        out = self.ctx.run(self.run.call, td)
+        if self.world.is_async(td):
+            import corodriver
+
+            self.run.sleep = corodriver.sleep
+            out = self.ctx.run(lambda: corodriver.drive(self.run.acall(td)))
+        else:
+            out = self.ctx.run(self.run.call, td)
         v = out["verdict"]
         if isinstance(out.get("exc_obj"), (core.Abort, core.HarnessError)):
             raise out["exc_obj"]
@@ -277,6 +284,10 @@ class Machine:
                 while hasattr(raw, "__wrapped__"):
                     raw = raw.__wrapped__
                 result = raw(**kw)
+                if inspect.iscoroutine(result):
+                    import corodriver
+
+                    result = corodriver.drive(result)
                 kw["result"] = result
                 kw["OLD"] = _ck.Old(mapping=old)
                 for c in posts:
@@ -398,11 +409,14 @@ class Machine:
         else:
             dec = icontract.ensure(self.world._fn("c_" + core._san(sid), params + ("result",), "sync", sid, "post"), description="[[%s]]" % sid, enabled=True)
         new = dec(target)
-        if is_prop:
-            if new is not target:
+        if ck0 is None:
+            # no checker existed: the decorator created one around the member, which has to be re-bound
+            if is_prop:
                 setattr(cls, m, property(new, cur.fset, cur.fdel))
-        else:
-            setattr(cls, m, new)
+            else:
+                setattr(cls, m, new)
+        # otherwise the decorator added the contract to the existing checker in place and returned that (inner) checker;
+        # the member stays bound to its outermost wrapper (re-binding the returned checker would strip the invariant wrapper)
         self.world.contracts[sid] = dec._contract
         return sid
 
